@@ -1253,10 +1253,11 @@ def translate_all() -> tuple[dict[str, str], dict[str, str]]:
             out += [f"/-- `{(spec['cls'] + '.') if spec['cls'] else ''}{spec['func']}` ({spec['file']}), translated -/", spec["header"], body, ""]
             status[spec["name"]] = "ok"
         except Unsupported as e:
-            out += [f"-- {spec['name']}: NOT TRANSLATED ({e})", ""]
-            status[spec["name"]] = f"unsupported: {e}"
+            msg = " ".join(str(e).split())
+            out += [f"-- {spec['name']}: NOT TRANSLATED ({msg})", ""]
+            status[spec["name"]] = f"unsupported: {msg}"
         except Exception as e:  # noqa: BLE001
-            out += [f"-- {spec['name']}: NOT TRANSLATED ({type(e).__name__}: {e})", ""]
+            out += [f"-- {spec['name']}: NOT TRANSLATED ({type(e).__name__}: {' '.join(str(e).split())})", ""]
             status[spec["name"]] = f"error: {e}"
         out.append("end NauyacaVerif.Gen.Fn")
         files[cap(spec["name"])] = "\n".join(out) + "\n"
